@@ -337,6 +337,15 @@ def simulated_anneal_tree(
                 accept = (dE <= 0) or (math.log(rng.random()) < -dE / temp)
 
                 if accept:
+                    if len(p) == tree.N:
+                        # the order of the root legs defines the order of
+                        # the output axes: it must follow ``tree.output``
+                        new_legs1 = {
+                            ix: new_legs1[ix]
+                            for ix in tree.output
+                            if ix in new_legs1
+                        }
+
                     tree._remove_node(p)
                     tree._remove_node(x)
 
